@@ -310,4 +310,5 @@ Extraction "model.ml"
   sumn
   load_seq
   load_ra
+  load_ra_files
 .
